@@ -69,6 +69,8 @@ def rules(ctx, db):
             if cr:
                 ctx.ob("R5", "no-resubmit-after-cancel", guarded_by_bool(f, cr[0], r"core::option::Option::<T>::is_some_and$", False) is not None,
                        "a fired cancel token ends the stream instead of re-submitting", f)
+    from .c07 import stream_adapter_rules
+    stream_adapter_rules(ctx, db, "R5")
     if any(n.startswith("compio_net::") for n in db.adts):
         inc = [f for f in db.fns.values() if re.search(r"^<compio_net::incoming::\w+::Incoming<'_> as futures_core::stream::Stream>::poll_next$", f.name)]
         if not inc:
